@@ -23,10 +23,10 @@ from vlib import Infra, log
 
 BASE = {"NKeys": "3", "MaxBatches": "4", "MaxFiles": "4", "MaxRecs": "10", "NoSync": "FALSE",
         "Kinds": '{"append","full"}', "MaxFaults": "0", "MaxCrashes": "0", "MaxSnaps": "0", "MaxReverts": "0",
-        "MaxReopens": "1", "AllowReadOnly": "FALSE", "Devs": "{}", "SimLen": "16"}
+        "MaxReopens": "1", "AllowReadOnly": "FALSE", "WithKids": "TRUE", "Devs": "{}", "SimLen": "16"}
 
 SAFETY = ["PublishedFooterReadable", "StoreIsPrefix", "AtLeastSynced", "OpenNeverFails", "CurrentFileExists",
-          "SnapFilesExist", "OldFilesGoAway", "OnlyCurrentFileAfterClose", "HistoryDescends", "HistoryReadable"]
+          "SnapFilesExist", "OldFilesGoAway", "OnlyCurrentFileAfterClose", "HistoryDescends", "HistoryReadable", "AllClosedAllReleased"]
 ACTIONS = ["CompactionPreservesContent", "FullCompactionShape", "ReadOnlyFrame", "ReadOnlyOpenFrame"]
 
 
